@@ -4,6 +4,7 @@ import (
 	"fmt"
 	"go/token"
 	"go/types"
+	"strings"
 
 	"golang.org/x/tools/go/ssa"
 )
@@ -90,7 +91,7 @@ func (e *Engine) fixLin(p *Path, v *Int) *Int {
 		if b.K == B0 {
 			continue
 		}
-		return v
+		return e.bitsAtom(p, v)
 	}
 	if a != "" {
 		if ai := p.atomInfo(a); ai != nil && ai.W <= k {
@@ -99,8 +100,39 @@ func (e *Engine) fixLin(p *Path, v *Int) *Int {
 				return v
 			}
 			v.Lin = LAtom(a)
+			return v
 		}
 	}
+	return e.bitsAtom(p, v)
+}
+
+// bitsAtom gives a bit vector without unknown bits (e.g. a length assembled from several input
+// bytes) a linear identity: a derived atom named after the canonical bit pattern, ranging over
+// [0, 2^k-1] where k-1 is the highest possibly-set bit. Two computations of the same pattern
+// share the atom, so a guard on one protects the other.
+func (e *Engine) bitsAtom(p *Path, v *Int) *Int {
+	top := -1
+	for i, b := range v.Bits {
+		switch b.K {
+		case BTop:
+			return v
+		case B1, BSym:
+			top = i
+		}
+	}
+	if top < 0 || top >= 62 || (v.Signed && top >= v.W-1) {
+		return v
+	}
+	var sb strings.Builder
+	for i := top; i >= 0; i-- {
+		sb.WriteString(v.Bits[i].String())
+		sb.WriteByte(' ')
+	}
+	name := "bv{" + strings.TrimSpace(sb.String()) + "}"
+	if _, ok := p.Atoms[name]; !ok {
+		p.Atoms[name] = &AtomInfo{W: top + 1, Lo: 0, Hi: (int64(1) << uint(top+1)) - 1}
+	}
+	v.Lin = LAtom(name)
 	return v
 }
 
@@ -240,6 +272,30 @@ func (e *Engine) binop(p *Path, fr *Frame, x *ssa.BinOp) Value {
 				return NewConst(lc/rc, w, signed)
 			}
 			return NewConst(lc%rc, w, signed)
+		}
+		if rok && rc > 0 && li.Lin != nil && p.Prove(li.Lin) && !li.Lin.IsConst() {
+			// floor division / remainder of a non-negative linear value by a positive constant:
+			// a derived atom with the induced interval
+			name := "(" + li.Lin.String() + ")/" + fmt.Sprint(rc)
+			if x.Op == token.REM {
+				name = "(" + li.Lin.String() + ")%" + fmt.Sprint(rc)
+			}
+			if _, ok := p.Atoms[name]; !ok {
+				if x.Op == token.REM {
+					p.Atoms[name] = &AtomInfo{W: 63, Lo: 0, Hi: rc - 1}
+				} else {
+					lo, _ := p.lowerBound(li.Lin)
+					if lo < 0 {
+						lo = 0
+					}
+					hi := int64(-1)
+					if ub, ok := p.upperBound(li.Lin); ok {
+						hi = ub / rc
+					}
+					p.Atoms[name] = &AtomInfo{W: 63, Lo: lo / rc, Hi: hi}
+				}
+			}
+			return e.fromLin(p, LAtom(name), w, signed)
 		}
 		if rok && rc > 0 && rc&(rc-1) == 0 && !li.Signed {
 			// power of two: shift / mask
